@@ -38,6 +38,7 @@ type verifAssets struct {
 	topics      *flows.TopicAssets
 	users       *flows.UserAssets
 	resthooks   *flows.ResthookAssets
+	realFlows   flows.FlowAssets // when set: the real flow assets (JSON definitions from a source) instead of the stub
 }
 
 func (a *verifAssets) Topics() *flows.TopicAssets {
@@ -72,7 +73,12 @@ func (a *verifAssets) FindByName(name string) (flows.Flow, error) {
 	}
 	return nil, errors.New("no such flow")
 }
-func (a *verifAssets) Flows() flows.FlowAssets               { return a }
+func (a *verifAssets) Flows() flows.FlowAssets {
+	if a.realFlows != nil {
+		return a.realFlows
+	}
+	return a
+}
 func (a *verifAssets) Channels() *flows.ChannelAssets        { return a.channels }
 func (a *verifAssets) Fields() *flows.FieldAssets            { return a.fields }
 func (a *verifAssets) Groups() *flows.GroupAssets            { return a.groups }
